@@ -21,7 +21,7 @@ PY = os.environ.get("SIMKIT_PYTHON", "/venv/bin/python")
 # configs: list of (name, env overrides, share of sessions)
 WORLDS = {
     "cg": ("C12", 24000, 1600000, [("default", {}, 1.0)]),
-    "pg": ("C13", 4800, 300000, [("default", {}, 0.99), ("history", {}, 0.01, {"fresh_per_session": True})]),
+    "pg": ("C13", 6000, 360000, [("default", {}, 0.99), ("history", {}, 0.01, {"fresh_per_session": True})]),
     "lls": ("C14", 640, 40000, [("default", {}, 1.0)]),
     "stop": ("C15", 48000, 1200000, [("default", {}, 1.0)]),
     "rng": (
@@ -315,6 +315,29 @@ def main(argv=None):
     reported = set()
     nviol = 0
     hist_trials = [0]
+    hist_verified = [0]
+    # A worker shrinks a violation right after finding it, in the same interpreter: the
+    # process history of that worker's later sessions then contains the shrinker's
+    # executions, which cannot be re-generated from seeds.  Only each worker's first
+    # violation has a history that is a pure function of seeds; those are verified first
+    # and are the only ones the process-history fallback below is tried on.
+    first_of_worker = {}
+    for v in m["violations"]:
+        v["_wk"] = None
+        if v.get("replay"):
+            try:
+                with open(v["replay"]) as f:
+                    rpj_ = json.load(f)
+                wk_ = rpj_.get("worker")
+                if wk_:
+                    v["_wk"] = (rpj_.get("config", "default"), wk_.get("offset"), wk_.get("start"))
+            except Exception:  # noqa
+                pass
+        if v["_wk"] is not None and (v["_wk"] not in first_of_worker or v["seed"] < first_of_worker[v["_wk"]]):
+            first_of_worker[v["_wk"]] = v["seed"]
+    for v in m["violations"]:
+        v["_first"] = v["_wk"] is not None and first_of_worker.get(v["_wk"]) == v["seed"]
+    m["violations"].sort(key=lambda v: (not v["_first"],))
     for v in m["violations"]:
         if v["fp"] in reported:
             continue
@@ -353,8 +376,10 @@ def main(argv=None):
                 with open(v["replay"], "w") as f:
                     json.dump(rp, f, sort_keys=True, indent=1)
                 v["violation"] = res["violation"]
-        if not ok and rp.get("worker") and hist_trials[0] < 2:
+        hist_tried = False
+        if not ok and rp.get("worker") and v.get("_first") and hist_trials[0] < 3:
             hist_trials[0] += 1
+            hist_tried = True
             # Neither the minimised nor the original session fails on its own in a fresh
             # interpreter: the violation needs the sessions that ran before it in the
             # same worker (hidden process-global state). Replay that history, then
@@ -404,6 +429,7 @@ def main(argv=None):
                 os.replace(v["replay"] + ".hist", v["replay"])
                 v["violation"] = hv
                 ok = True
+                hist_verified[0] += 1
                 print("NOTE property=%s the violation below depends on process history: %d session(s) in one interpreter"
                       % (prop, len(keep)))
             else:
@@ -419,6 +445,13 @@ def main(argv=None):
                 v["violation"]["invariant"], v["violation"]["site"],
                 v["violation"]["step"], v["seed"]))
             print("  detail=%s" % json.dumps(v["violation"]["detail"], sort_keys=True)[:600])
+        elif hist_verified[0] and not hist_tried:
+            # hidden process-global state has been demonstrated in this run (a verified
+            # process-history replay above); this violation was either found in a worker whose
+            # interpreter had already executed a shrinker (its history cannot be re-generated
+            # from seeds) or comes after the budget of history replays was used up
+            print("NOTE property=%s violation %s (seed %s) not re-verified on its own: this run has already shown, with "
+                  "a verified replay, that results depend on process history" % (prop, v["fp"], v["seed"]))
         else:
             errors.append("violation %s (seed %s) did not reproduce in a fresh interpreter: %s %s"
                           % (v["fp"], v["seed"], (out or "")[-500:], (err or "")[-500:]))
